@@ -98,7 +98,11 @@ def gen_doc(rng):
     if not titles:
         blocks.append(para())
     for i in range(ntab):
-        blocks.insert(rng.randrange(len(blocks) + 1), '| a | b |\n|---|---|\n| %s | %s |\n[Caption %d][tab%d]' % (w(), w(), i, i))
+        # '[Caption][label]' labels the table; with a blank between the brackets the second bracket is not a label (the id comes from the caption text)
+        cap = rng.choice(['[Caption %d][tab%d]', '[Caption %d][tab%d]', '[Caption %d] [tab%d]', '[tab%d caption %d]']) % (i, i)
+        blocks.insert(rng.randrange(len(blocks) + 1), '| a | b |\n|---|---|\n| %s | %s |\n%s' % (w(), w(), cap))
+        if rng.random() < 0.5:
+            blocks.append('See %s and [Caption %d][].' % ('[tab%d][]' % i, i))
     if rng.random() < 0.35:
         blocks.insert(rng.randrange(len(blocks) + 1), rng.choice(['{{TOC}}', '{{TOC:1-2}}', '{{TOC:2}}', '{{TOC:1-6}}']))
     for _ in range(rng.randint(0, 3)):
@@ -106,7 +110,9 @@ def gen_doc(rng):
     defs = []
     for f in fn_ids:
         if rng.random() < 0.85:
-            defs.append('[^%s]: Footnote %s %s' % (f, w(), call() if rng.random() < 0.3 else w()))
+            nested = rng.choice(['', '', '', '\n\n    > quoted %s\n    > more\n\n    after %s' % (w(), w()), '\n\n    * loose %s\n\n    * item %s\n\n    closing %s' % (w(), w(), w()),
+                                 '\n\n    second paragraph %s' % w()])
+            defs.append('[^%s]: Footnote %s %s%s' % (f, w(), call() if rng.random() < 0.3 else w(), nested))
     # entries that themselves call notes: the lists are written footnotes, glossary, citations -- a call to a list written later (or to the one being
     # written) is picked up when that list is written; a call to a list already written (d.late) has nowhere to go (recorded finding)
     d.late = set()
@@ -235,6 +241,12 @@ def analyse(r, html, d, ext, case, tag=''):
                 break
             if n in first_call and first_call[n].get('id') != tgt:
                 bad('%s-backlink-not-first-call' % name, 'id %s is not on the first call of %s' % (tgt, n))
+                break
+        # 2b. every entry that some call reaches carries a link back (whatever blocks its text is made of)
+        back_targets = set(at['href'][1 + len(kind) + 4:] for pos, at in backs)
+        for n in first_call:
+            if ('%s:%s' % (kind, n)) in idset and n not in back_targets:
+                bad('%s-entry-without-backlink' % name, 'entry %s:%s is called but carries no link back to #%sref:%s' % (kind, n, kind, n))
                 break
         # 3. numbering 1..n in order of first use / entries in order
         if not random_foot:
